@@ -266,3 +266,27 @@ def with_duplicate_action(rng, t):
     else:
         n["a"].append([new_label, copy.deepcopy(sub)])
     return t2
+
+
+def double_move_tree(rng, swap=False):
+    """"Hide and seek": one player makes two consecutive choices (k1 x k2 hiding spots), the other observes nothing and
+    guesses (one infoset spanning every node of the level); random payoffs with a penalty where the guess is right.
+    The breadth-first frontier of the multi-threaded solvers passes through two decisions of the same player here."""
+    from .gen import tree_stats
+    from .common import f2b
+    k1, k2 = rng.choice([2, 2, 3]), rng.choice([2, 3])
+    hider, seeker = (2, 1) if swap else (1, 2)
+    spots = k1 * k2
+    guesses = rng.choice([spots, 2, 3])
+    pen = [rng.choice([1.0, 2.0, 3.0]) for _ in range(spots)]
+
+    def seek(spot):
+        acts = []
+        for gno in range(guesses):
+            caught = (spot % guesses) == gno
+            v = -pen[spot] if caught else rng.choice([0.0, 0.0, 0.25])
+            acts.append([gno + 1, {"t": f2b(v if hider == 1 else -v)}])
+        return {"p": seeker, "i": 900, "a": acts}
+    root = {"p": hider, "i": 1, "a": [[a + 1, {"p": hider, "i": 10 + a,
+                                                "a": [[b + 1, seek(a * k2 + b)] for b in range(k2)]}] for a in range(k1)]}
+    return root, tree_stats(root)
